@@ -10,12 +10,14 @@
    power function with the usual laws: log R <= 0, R in (0,1], compressive
    states give exactly 1, linear in volume, homogeneous of degree m at zero
    service time, not increasing when stresses are scaled up; panel / overall
-   aggregation is a product of powers.  The eigenvalue solver, the orientation
-   quadratures of the six shape-dependent models, the time-dependent g-factor and
-   the uniaxial reduction are validated on the implementation by
-   harness/props/c05.py, not proved. *)
+   aggregation is a product of powers; the service-time substitution
+   s0(t) = ((smax^N g t)/B + smax^(N-2))^(1/(N-2)) every model applies equals the
+   peak stress at t = 0, grows with t and so never increases a reliability.  The
+   eigenvalue solver, the orientation quadratures of the six shape-dependent models,
+   the value of the cycle factor g (a quadrature) and the uniaxial reduction are
+   validated on the implementation by harness/props/c05.py, not proved. *)
 From Coq Require Import QArith Reals List Bool String Lra.
-From SV Require Import model.Life proofs.LifeInvariance model.Weibull proofs.WeibullProofs proofs.WeibullLaws gen.WeibullTables proofs.Lame.
+From SV Require Import model.Life proofs.LifeInvariance model.Weibull proofs.WeibullProofs proofs.WeibullLaws proofs.RealPower gen.WeibullTables proofs.Lame.
 Import ListNotations.
 
 Theorem C05_assembled_tensor_is_stress :
@@ -72,6 +74,63 @@ Theorem C05_scale_antitone :
   forall k V m p l, (0 <= k -> 0 <= V -> 1 <= l -> pia pw k V m (map (Rmult l) p) <= pia pw k V m p)%R.
 Proof. exact pia_scale_antitone. Qed.
 Print Assumptions C05_scale_antitone.
+
+(* service time: the substituted stress equals the peak stress at t = 0, is never below it ... *)
+Theorem C05_zero_service_time_uses_peak_stress :
+  forall pw : R -> R -> R, (forall x a, 0 <= x -> 0 < a -> pw (pw x a) (/ a) = x)%R ->
+  forall N B g smax, (0 <= smax -> 2 < N -> sig0 pw N B g 0 smax = smax)%R.
+Proof. exact sig0_zero_time. Qed.
+Print Assumptions C05_zero_service_time_uses_peak_stress.
+
+Theorem C05_service_stress_not_below_peak :
+  forall pw : R -> R -> R, (forall x m, 0 <= x -> 0 <= pw x m)%R -> (forall x y m, 0 <= x -> x <= y -> pw x m <= pw y m)%R ->
+  (forall x a, 0 <= x -> 0 < a -> pw (pw x a) (/ a) = x)%R ->
+  forall N B g t smax, (0 <= smax -> 0 <= g -> 0 < B -> 0 <= t -> 2 < N -> smax <= sig0 pw N B g t smax)%R.
+Proof. exact sig0_ge_peak. Qed.
+Print Assumptions C05_service_stress_not_below_peak.
+
+(* ... and a longer service time never increases a reliability *)
+Theorem C05_longer_service_never_increases_reliability :
+  forall pw : R -> R -> R, (forall x m, 0 <= x -> 0 <= pw x m)%R -> (forall x y m, 0 <= x -> x <= y -> pw x m <= pw y m)%R ->
+  forall k V m N B t t' pg, (0 <= k -> 0 <= V -> 0 < B -> 0 <= t -> t <= t' ->
+  (forall sg, In sg pg -> 0 <= fst sg /\ 0 <= snd sg) ->
+  logR_t pw k V m N B t' pg <= logR_t pw k V m N B t pg)%R.
+Proof. exact logR_time_antitone. Qed.
+Print Assumptions C05_longer_service_never_increases_reliability.
+
+Theorem C05_zero_service_time_is_static_law :
+  forall pw : R -> R -> R, (forall x a, 0 <= x -> 0 < a -> pw (pw x a) (/ a) = x)%R ->
+  forall k V m N B pg, (2 < N)%R -> (forall sg, In sg pg -> 0 <= fst sg)%R ->
+  logR_t pw k V m N B 0 pg = (- k * V * sumR (map (fun sg => pw (fst sg) m) pg))%R.
+Proof. exact logR_zero_time. Qed.
+Print Assumptions C05_zero_service_time_is_static_law.
+
+Theorem C05_cycle_factor_nonneg :
+  forall pw : R -> R -> R, (forall x m, 0 <= x -> 0 <= pw x m)%R ->
+  forall N T wr, (0 < T)%R -> (forall x, In x wr -> 0 <= fst x /\ 0 <= snd x)%R ->
+  (0 <= sumR (map (fun x => fst x * pw (snd x) N) wr) / T)%R.
+Proof. exact cycle_factor_nonneg. Qed.
+Print Assumptions C05_cycle_factor_nonneg.
+
+(* the power function of these laws can be the real power: x^m on x >= 0, m > 0 satisfies every hypothesis *)
+Theorem C05_laws_hold_for_the_real_power :
+  ((forall x m, 0 <= x -> 0 <= rpow x m) /\
+   (forall m, rpow 0 m = 0) /\
+   (forall x y m, 0 <= x -> x <= y -> rpow x m <= rpow y m) /\
+   (forall l x m, 0 <= l -> 0 <= x -> rpow (l * x) m = rpow l m * rpow x m) /\
+   (forall l m, 1 <= l -> 1 <= rpow l m) /\
+   (forall x a, 0 <= x -> 0 < a -> rpow (rpow x a) (/ a) = x) /\
+   (forall x m, 0 < x -> 0 < m -> rpow x m = Rpower x m))%R.
+Proof. exact real_power_satisfies_the_laws. Qed.
+Print Assumptions C05_laws_hold_for_the_real_power.
+
+(* ... so, for instance, with real powers a longer service never increases a reliability *)
+Theorem C05_longer_service_real_powers :
+  forall k V m N B t t' pg, (0 <= k -> 0 <= V -> 0 < B -> 0 <= t -> t <= t' ->
+  (forall sg, In sg pg -> 0 <= fst sg /\ 0 <= snd sg) ->
+  logR_t rpow k V m N B t' pg <= logR_t rpow k V m N B t pg)%R.
+Proof. exact (logR_time_antitone rpow rpow_nonneg rpow_mono). Qed.
+Print Assumptions C05_longer_service_real_powers.
 
 Theorem C05_aggregation :
   forall l : list (nat * R),
